@@ -442,6 +442,7 @@ func (in *interp) indexAddr(instr *ssa.IndexAddr, x, idx value) *value {
 			et = t.Elem().Underlying().(*types.Array).Elem()
 		}
 		s[i] = in.zero(et)
+		in.lazyCells = append(in.lazyCells, &s[i])
 	}
 	return &s[i]
 }
@@ -516,7 +517,12 @@ func (in *interp) callBuiltin(caller *frame, callpos token.Pos, fn *ssa.Builtin,
 				return arg0
 			}
 			// copy element values (aggregates are stored by value)
-			return append(arg0, s...)
+			n := len(arg0)
+			out := append(arg0, s...)
+			for i := n; i < len(out); i++ {
+				out[i] = copyVal(out[i])
+			}
+			return out
 		}
 		panic(fmt.Sprintf("append: %T", args[1]))
 	case "copy":
@@ -530,6 +536,7 @@ func (in *interp) callBuiltin(caller *frame, callpos token.Pos, fn *ssa.Builtin,
 		}
 		n := copy(dst, src)
 		for i := 0; i < n; i++ {
+			dst[i] = copyVal(dst[i])
 			in.onWrite(&dst[i])
 		}
 		return in.mkInt(n)
